@@ -151,7 +151,10 @@ def rule_X1(ctx, repo, b):
     r = ctx.rule('C04.X1', 'the witness-v0 branch is defined for every field value: no value-dependent rejection', engine='ESCAPE', floor=1)
     fi = b.fi
     n = 0
-    for st in ast.walk(b.branch):
+    # everything that runs on the way to the digest: the statements before the branch and the branch itself
+    before = fi.node.body[:fi.node.body.index(b.branch)] if b.branch in fi.node.body else []
+    region = [x for st0 in before for x in ast.walk(st0)] + list(ast.walk(b.branch))
+    for st in region:
         if isinstance(st, (ast.Raise, ast.Assert)):
             n += 1
             guard = getattr(st, '_parent', None)
